@@ -88,7 +88,12 @@ func (g *sGen) objectFrom(depth int, sPropNames []string, maxProps int) string {
 	props := ""
 	for _, pi := range perm {
 		name := sPropNames[pi]
-		props += "  " + name + ":\n" + indent(g.value(depth), 4)
+		val := g.value(depth)
+		props += "  " + name + ":\n"
+		if g.rng.Intn(5) == 0 && !strings.HasPrefix(val, "{") && !strings.HasPrefix(val, "$ref") {
+			props += "    description: |\n      first line of " + name + "\n      second line\n"
+		}
+		props += indent(val, 4)
 		if g.rng.Intn(2) == 0 {
 			req = append(req, name)
 		}
